@@ -168,18 +168,20 @@ def locate_function(relpath, sig_regex, which=None, within=None):
     return Located(relpath, full[s:e + 1], s, e + 1, full)
 
 
-def locate_region(relpath, func_sig_regex, start_regex, end_regex, include_end=True, which=None):
-    """Region inside a located function: from the first match of start_regex to
-    the first following match of end_regex (inclusive when include_end)."""
+def locate_region(relpath, func_sig_regex, start_regex, end_regex, include_end=True, which=None, occurrence=None, expect=1):
+    """Region inside a located function: from the match of start_regex to the first
+    following match of end_regex (inclusive when include_end).  start_regex must match
+    exactly `expect` times in the function; `occurrence` selects one when expect > 1."""
     f = locate_function(relpath, func_sig_regex, which)
     full = read(relpath)
     body = f.text
     mb = mask(body, keep_strings=True)
     ms = list(re.finditer(start_regex, mb, re.M))
-    if len(ms) != 1:
-        raise ExtractError("%s: region start /%s/ matched %d times in function" % (relpath, start_regex, len(ms)))
+    if len(ms) != expect:
+        raise ExtractError("%s: region start /%s/ matched %d times in function (need %d)" % (relpath, start_regex, len(ms), expect))
+    ms = [ms[occurrence or 0]]
     s = ms[0].start()
-    me = re.compile(end_regex, re.M).search(mb, ms[0].end())
+    me = re.compile(end_regex, re.M).search(mb, ms[0].end() if ms[0].end() > ms[0].start() else ms[0].start())
     if not me:
         raise ExtractError("%s: region end /%s/ not found" % (relpath, end_regex))
     e = me.end() if include_end else me.start()
